@@ -1068,7 +1068,8 @@ class Terminal:
         assert size is not None
         assert offset is not None
 
-        index = start - self.fmmu_used[start::-1].index(None) - 1
+        first = min(start, len(self.fmmu_used) - 1)
+        index = first - self.fmmu_used[first::-1].index(None)
 
         self.fmmu_used[index] = logical
         try:
